@@ -30,7 +30,7 @@ open Gozod.Store Gozod.DefData Gozod.ConvOpts Gozod.C12Def Gozod.C08 Gozod.C12
 /-! ### the steps only allocate, or write what they allocated -/
 
 theorem write_ext (n : Nat) (σ : Store) (l : Loc) (c : Cell) (h : n ≤ l) : ExtFrom n σ (write σ l c) :=
-  ⟨Nat.le_refl _, fun x hx => upd_other _ _ _ _ (Nat.ne_of_lt (Nat.lt_of_lt_of_le hx h))⟩
+  ⟨Nat.le_refl _, fun _ hx => upd_other _ _ _ _ (Nat.ne_of_lt (Nat.lt_of_lt_of_le hx h))⟩
 
 theorem takeExamples_ext (copy : Bool) (σ : Store) (e : Option REntry) : ExtFrom σ.next σ (takeExamples copy σ e).1 := by
   unfold takeExamples
